@@ -10,9 +10,47 @@ namespace Crem.Anneal
 section loop
 variable {α : Type} [Mul α]
 
-/-- the panic site is iteration `k` (either call) -/
-def fires (p : Option PanicSite) (k : Nat) : Prop :=
-  p = some (.tryRandomChange k) ∨ p = some (.coolDown k)
+/-- the iteration (of this `Anneal()` call) a panic site sits in, if it sits in the loop body -/
+def PanicSite.iteration? : PanicSite → Option Nat
+  | .tryRandomChange k | .coolDown k | .coolDownAfter k => some k
+  | .notify (.startedIteration k) _ | .notify (.finishedIteration k) _ => some k
+  | _ => none
+
+/-- the panic site is in iteration `k` -/
+def fires (p : Option PanicSite) (k : Nat) : Prop := p.bind PanicSite.iteration? = some k
+
+instance (p : Option PanicSite) (k : Nat) : Decidable (fires p k) := by unfold fires; infer_instance
+
+theorem fires_unique {p : Option PanicSite} {j k : Nat} (hj : fires p j) (hk : fires p k) : j = k := by
+  unfold fires at hj hk; rw [hj] at hk; exact Option.some.inj hk
+
+theorem iterationPanic_none (a : α) {p : Option PanicSite} {i : Nat} (h : ¬ fires p i) (cur : Nat) (T : α) :
+    iterationPanic a p i cur T = none := by
+  unfold fires at h
+  rcases p with _ | s
+  · rfl
+  · cases s with
+    | notify pt j => cases pt <;> simp_all [iterationPanic, PanicSite.iteration?]
+    | _ => simp_all [iterationPanic, PanicSite.iteration?]
+
+theorem fires_of_iterationPanic (a : α) {p : Option PanicSite} {i cur : Nat} {T : α}
+    {x : List (Event α) × α} (h : iterationPanic a p i cur T = some x) : fires p i := by
+  rcases Decidable.em (fires p i) with hf | hf
+  · exact hf
+  · rw [iterationPanic_none a hf] at h; cases h
+
+theorem not_initialise_of_fires {p : Option PanicSite} {k : Nat} (h : fires p k) :
+    p ≠ some .initialise := by
+  intro hp; subst hp; simp [fires, PanicSite.iteration?] at h
+
+theorem observerAt_of_fires {p : Option PanicSite} {k : Nat} (h : fires p k) :
+    observerAt p .startedAnnealing = none ∧ observerAt p .finishedAnnealing = none := by
+  unfold fires at h
+  rcases p with _ | s
+  · simp [observerAt]
+  · cases s with
+    | notify pt j => cases pt <;> simp_all [observerAt, PanicSite.iteration?]
+    | _ => simp [observerAt]
 
 /-- iterations `cur+1 … cur+m`, entered at temperature `T` -/
 def iterationsFrom (a : α) (cur : Nat) (T : α) (m : Nat) : List (Event α) :=
@@ -33,6 +71,11 @@ theorem iterationsFrom_succ (a : α) (cur : Nat) (T : α) (m : Nat) :
   congr 1
   omega
 
+theorem iterationsFrom_succ_last (a : α) (cur : Nat) (T : α) (m : Nat) :
+    iterationsFrom a cur T (m + 1) =
+      iterationsFrom a cur T m ++ iterationEvents a (cur + m + 1) (temp T a m) := by
+  simp [iterationsFrom, List.range_succ, List.flatMap_append]
+
 theorem iterations_eq_from (T0 a : α) (n : Nat) : iterations T0 a n = iterationsFrom a 0 T0 n := by
   simp [iterations, iterationsFrom]
 
@@ -40,87 +83,157 @@ theorem iterations_succ (T0 a : α) (n : Nat) :
     iterations T0 a (n + 1) = iterations T0 a n ++ iterationEvents a (n + 1) (temp T0 a n) := by
   simp [iterations, List.range_succ, List.flatMap_append]
 
-/-- complete iterations: no panic fires in the next `m` iterations, which exhaust the budget -/
+/-- complete iterations: no panic fires in the next `m + 1` iterations, which exhaust the budget -/
 theorem loop_complete (N : Nat) (a : α) (p : Option PanicSite) :
     ∀ (m fuel i cur : Nat) (T : α), cur + (m + 1) = N → m + 1 ≤ fuel →
       (∀ k, i < k → k ≤ i + (m + 1) → ¬ fires p k) →
       loop N a p fuel i cur T = (iterationsFrom a cur T (m + 1), .done N (temp T a (m + 1)))
   | m, 0, _, _, _, _, hf, _ => by omega
   | 0, fuel + 1, i, cur, T, hN, _, hp => by
-    have h1 : p ≠ some (.tryRandomChange (i + 1)) := fun h => hp (i + 1) (by omega) (by omega) (Or.inl h)
-    have h2 : p ≠ some (.coolDown (i + 1)) := fun h => hp (i + 1) (by omega) (by omega) (Or.inr h)
+    have h1 := iterationPanic_none a (hp (i + 1) (by omega) (by omega)) (cur + 1) T
     have h3 : cur + 1 ≥ N := by omega
     have h4 : cur + 1 = N := by omega
-    simp [loop, h1, h2, iterationsFrom, iterationEvents, temp, h4]
+    simp only [loop, h1]
+    simp [iterationsFrom, iterationEvents, temp, h4]
   | m + 1, fuel + 1, i, cur, T, hN, hf, hp => by
-    have h1 : p ≠ some (.tryRandomChange (i + 1)) := fun h => hp (i + 1) (by omega) (by omega) (Or.inl h)
-    have h2 : p ≠ some (.coolDown (i + 1)) := fun h => hp (i + 1) (by omega) (by omega) (Or.inr h)
+    have h1 := iterationPanic_none a (hp (i + 1) (by omega) (by omega)) (cur + 1) T
     have h3 : ¬ cur + 1 ≥ N := by omega
     have ih := loop_complete N a p m fuel (i + 1) (cur + 1) (T * a) (by omega) (by omega)
       (fun k hk1 hk2 => hp k (by omega) (by omega))
     rw [iterationsFrom_succ]
-    simp only [loop, h1, h2, h3, if_false, ih, iterationEvents, temp_shift]
-
-/-- `d` complete iterations, then `TryRandomChange` panics in the next one -/
-theorem loop_panic_try (N : Nat) (a : α) (j : Nat) :
-    ∀ (d fuel i cur : Nat) (T : α), j = i + d + 1 → cur + d + 1 ≤ N → d + 1 ≤ fuel →
-      loop N a (some (.tryRandomChange j)) fuel i cur T =
-        (iterationsFrom a cur T d ++ [.startedIteration (cur + d + 1) (temp T a d), .tryRandomChange],
-          .panicked (cur + d + 1) (temp T a d))
-  | d, 0, _, _, _, _, _, hf => by omega
-  | 0, fuel + 1, i, cur, T, hj, _, _ => by
-    subst hj
-    simp [loop, iterationsFrom, temp]
-  | d + 1, fuel + 1, i, cur, T, hj, hN, hf => by
-    have h1 : (some (PanicSite.tryRandomChange j) : Option PanicSite) ≠ some (.tryRandomChange (i + 1)) := by
-      simp; omega
-    have h3 : ¬ cur + 1 ≥ N := by omega
-    have ih := loop_panic_try N a j d fuel (i + 1) (cur + 1) (T * a) (by omega) (by omega) (by omega)
-    rw [iterationsFrom_succ]
     simp only [loop, h1, h3, if_false, ih, iterationEvents, temp_shift]
-    simp [Nat.add_assoc, Nat.add_comm 1 d]
 
-/-- `d` complete iterations, then `CoolDown` panics in the next one -/
-theorem loop_panic_cool (N : Nat) (a : α) (j : Nat) :
+/-- `d` complete iterations, then the injected panic fires in the next one (iteration `j` of this
+call), wherever in the loop body it sits -/
+theorem loop_panic (N : Nat) (a : α) (p : Option PanicSite) (j : Nat) (evs : List (Event α)) (T' : α) :
     ∀ (d fuel i cur : Nat) (T : α), j = i + d + 1 → cur + d + 1 ≤ N → d + 1 ≤ fuel →
-      loop N a (some (.coolDown j)) fuel i cur T =
-        (iterationsFrom a cur T d ++
-          [.startedIteration (cur + d + 1) (temp T a d), .tryRandomChange, .coolDown],
-          .panicked (cur + d + 1) (temp T a d))
-  | d, 0, _, _, _, _, _, hf => by omega
-  | 0, fuel + 1, i, cur, T, hj, _, _ => by
+      iterationPanic a p j (cur + d + 1) (temp T a d) = some (evs, T') →
+      loop N a p fuel i cur T = (iterationsFrom a cur T d ++ evs, .panicked (cur + d + 1) T')
+  | d, 0, _, _, _, _, _, hf, _ => by omega
+  | 0, fuel + 1, i, cur, T, hj, _, _, h => by
     subst hj
-    simp [loop, iterationsFrom, temp]
-  | d + 1, fuel + 1, i, cur, T, hj, hN, hf => by
-    have h1 : (some (PanicSite.coolDown j) : Option PanicSite) ≠ some (.coolDown (i + 1)) := by
-      simp; omega
+    simp only [Nat.add_zero, temp] at h
+    simp [loop, iterationsFrom, h]
+  | d + 1, fuel + 1, i, cur, T, hj, hN, hf, h => by
+    have hfj := fires_of_iterationPanic a h
+    have h1 : iterationPanic a p (i + 1) (cur + 1) T = none :=
+      iterationPanic_none a (fun hk => by have := fires_unique hfj hk; omega) _ _
     have h3 : ¬ cur + 1 ≥ N := by omega
-    have ih := loop_panic_cool N a j d fuel (i + 1) (cur + 1) (T * a) (by omega) (by omega) (by omega)
+    have h' : iterationPanic a p j (cur + 1 + d + 1) (temp (T * a) a d) = some (evs, T') := by
+      rw [temp_shift]
+      have e : cur + 1 + d + 1 = cur + (d + 1) + 1 := by omega
+      rw [e]; exact h
+    have ih := loop_panic N a p j evs T' d fuel (i + 1) (cur + 1) (T * a) (by omega) (by omega) (by omega) h'
     rw [iterationsFrom_succ]
-    simp only [loop, h1, h3, if_false, ih, iterationEvents, temp_shift]
-    simp [Nat.add_assoc, Nat.add_comm 1 d]
+    simp only [loop, h1, h3, if_false, ih, iterationEvents]
+    have e : cur + 1 + d + 1 = cur + (d + 1) + 1 := by omega
+    simp [e]
 
 /-- entered with the counter already at or beyond the budget (a second `Anneal()` on the same
 annealer object): exactly one more iteration runs -/
-theorem loop_overrun (N : Nat) (a : α) (fuel i cur : Nat) (T : α) (h : N ≤ cur + 1) :
-    loop N a none (fuel + 1) i cur T = (iterationEvents a (cur + 1) T, .done (cur + 1) (T * a)) := by
+theorem loop_overrun (N : Nat) (a : α) (p : Option PanicSite) (fuel i cur : Nat) (T : α)
+    (h : N ≤ cur + 1) (hp : ¬ fires p (i + 1)) :
+    loop N a p (fuel + 1) i cur T = (iterationEvents a (cur + 1) T, .done (cur + 1) (T * a)) := by
   have h3 : cur + 1 ≥ N := h
-  simp [loop, h3, iterationEvents]
+  simp [loop, h3, iterationEvents, iterationPanic_none a hp]
+
+/-- the fuel `anneal` passes is enough, whatever happens -/
+theorem loop_not_outOfFuel (N : Nat) (a : α) (p : Option PanicSite) :
+    ∀ (fuel i cur : Nat) (T : α), N ≤ cur + fuel → 0 < fuel →
+      ∀ c T', (loop N a p fuel i cur T).2 ≠ .outOfFuel c T'
+  | 0, _, _, _, _, h, _, _ => by omega
+  | fuel + 1, i, cur, T, hN, _, c, T' => by
+    simp only [loop]
+    split
+    · simp
+    · split
+      · simp
+      · rename_i hlt
+        exact loop_not_outOfFuel N a p fuel (i + 1) (cur + 1) (T * a) (by omega) (by omega) c T'
+
+/-- `anneal` past `annealingStarted()` -/
+theorem anneal_eq (N cur0 : Nat) (T0 a : α) {p : Option PanicSite} (hinit : p ≠ some .initialise)
+    (hS : observerAt p .startedAnnealing = none) :
+    anneal N cur0 T0 a p =
+      if N = 0 then finish p [.explorerInitialise, .startedAnnealing T0] cur0 T0
+      else conclude p T0 (loop N a p (N - cur0 + 1) 0 cur0 T0) := by
+  simp [anneal, hinit, hS]
+
+/-- `anneal` when an observer panics on the start event -/
+theorem anneal_eq_start_panic (N cur0 : Nat) (T0 a : α) {p : Option PanicSite} {j : Nat}
+    (hinit : p ≠ some .initialise) (hS : observerAt p .startedAnnealing = some j) :
+    anneal N cur0 T0 a p =
+      ⟨[.explorerInitialise, .startedAnnealing T0, .observerPanic j, .explorerTearDown],
+        .repanicked, cur0, T0⟩ := by
+  simp [anneal, hinit, hS]
+
+/-- a run with a fresh counter in which no panic fires before the loop is done -/
+theorem anneal_loop_complete (N : Nat) (T0 a : α) (p : Option PanicSite) (hinit : p ≠ some .initialise)
+    (hS : observerAt p .startedAnnealing = none) (hp : ∀ k, 1 ≤ k → k ≤ N → ¬ fires p k) :
+    anneal N 0 T0 a p =
+      finish p ([.explorerInitialise, .startedAnnealing T0] ++ iterations T0 a N) N (temp T0 a N) := by
+  cases N with
+  | zero => simp [anneal, hinit, hS, iterations, temp]
+  | succ n =>
+    have hl := loop_complete (n + 1) a p n (n + 1 - 0 + 1) 0 0 T0 (by omega) (by omega)
+      (fun k hk1 hk2 => hp k (by omega) (by omega))
+    simp only [anneal, conclude, hinit, hS, if_false, hl, iterations_eq_from]
+    simp
+
+/-- the panic site never fires in a run of budget `N` (fresh counter): there is none, or it sits
+in an iteration that does not happen -/
+def Quiet (p : Option PanicSite) (N : Nat) : Prop :=
+  p = none ∨ ∃ k, fires p k ∧ (k = 0 ∨ N < k)
+
+omit [Mul α] in
+theorem finish_quiet {p : Option PanicSite} {N : Nat} (h : Quiet p N) (pre : List (Event α)) (cur : Nat) (T : α) :
+    finish p pre cur T = ⟨pre ++ [.finishedAnnealing cur T, .explorerTearDown], .returned, cur, T⟩ := by
+  rcases h with rfl | ⟨k, hk, -⟩
+  · simp [finish, observerAt]
+  · have h2 := (observerAt_of_fires hk).2
+    have h3 : p ≠ some .finishAttributes := by
+      intro hp; subst hp; simp [fires, PanicSite.iteration?] at hk
+    have h4 : p ≠ some .tearDown := by
+      intro hp; subst hp; simp [fires, PanicSite.iteration?] at hk
+    simp [finish, h2, h3, h4]
 
 /-- a run without a (firing) panic site, fresh counter -/
-theorem anneal_complete (N : Nat) (T0 a : α) (p : Option PanicSite) (hinit : p ≠ some .initialise)
-    (hp : ∀ k, 1 ≤ k → k ≤ N → ¬ fires p k) :
+theorem anneal_complete (N : Nat) (T0 a : α) (p : Option PanicSite) (hq : Quiet p N) :
     anneal N 0 T0 a p =
       ⟨[.explorerInitialise, .startedAnnealing T0] ++ iterations T0 a N ++
           [.finishedAnnealing N (temp T0 a N), .explorerTearDown],
         .returned, N, temp T0 a N⟩ := by
-  cases N with
-  | zero => simp [anneal, hinit, iterations, temp]
-  | succ n =>
-    have hl := loop_complete (n + 1) a p n (n + 1 - 0 + 1) 0 0 T0 (by omega) (by omega)
-      (fun k hk1 hk2 => hp k (by omega) (by omega))
-    simp only [anneal, hinit, if_false, hl, iterations_eq_from]
-    simp
+  have hinit : p ≠ some .initialise := by
+    rcases hq with rfl | ⟨k, hk, -⟩
+    · simp
+    · exact not_initialise_of_fires hk
+  have hS : observerAt p .startedAnnealing = none := by
+    rcases hq with rfl | ⟨k, hk, -⟩
+    · simp [observerAt]
+    · exact (observerAt_of_fires hk).1
+  have hp : ∀ k, 1 ≤ k → k ≤ N → ¬ fires p k := by
+    intro k h1 h2 hk
+    rcases hq with rfl | ⟨k', hk', hout⟩
+    · simp [fires] at hk
+    · have := fires_unique hk hk'; omega
+  rw [anneal_loop_complete N T0 a p hinit hS hp, finish_quiet hq]
+
+/-- a run with a fresh counter in which the injected panic fires in iteration `j` of the budget -/
+theorem anneal_iteration_panic (N j : Nat) (T0 a : α) (p : Option PanicSite) (evs : List (Event α)) (T' : α)
+    (hj1 : 1 ≤ j) (hjN : j ≤ N)
+    (h : iterationPanic a p j j (temp T0 a (j - 1)) = some (evs, T')) :
+    anneal N 0 T0 a p =
+      ⟨[.explorerInitialise, .startedAnnealing T0] ++ iterations T0 a (j - 1) ++ evs ++ [.explorerTearDown],
+        .repanicked, j, T'⟩ := by
+  have hf := fires_of_iterationPanic a h
+  have hinit := not_initialise_of_fires hf
+  have hS := (observerAt_of_fires hf).1
+  have hN : N ≠ 0 := by omega
+  have hjj : 0 + (j - 1) + 1 = j := by omega
+  have hl := loop_panic N a p j evs T' (j - 1) (N - 0 + 1) 0 0 T0 (by omega) (by omega) (by omega)
+    (by rw [hjj]; exact h)
+  simp only [anneal, conclude, hinit, hS, hN, if_false, hl, ← iterations_eq_from, hjj]
+  simp
 
 end loop
 
@@ -139,6 +252,13 @@ theorem countP_iterations (T0 a : α) (n : Nat) :
     rw [iterations_succ]
     simp [List.countP_append, h1, h2, h3, h4, iterationEvents, Event.isTry, Event.isStartedIteration,
       Event.isFinishedIteration, Event.isFinishedAnnealing, List.countP_cons]
+
+theorem countP_isTry_iterationsFrom (a : α) (cur : Nat) (T : α) :
+    ∀ m, (iterationsFrom a cur T m).countP Event.isTry = m
+  | 0 => by simp [iterationsFrom]
+  | m + 1 => by
+    rw [iterationsFrom_succ_last, List.countP_append, countP_isTry_iterationsFrom a cur T m]
+    simp [iterationEvents, Event.isTry, List.countP_cons]
 
 theorem mem_iterations {T0 a : α} {n : Nat} {e : Event α} (h : e ∈ iterations T0 a n) :
     ∃ j, j < n ∧ e ∈ iterationEvents a (j + 1) (temp T0 a j) := by
@@ -246,6 +366,546 @@ theorem receivedBy_deliveries_aux (n i : Nat) (hi : i < n) : ∀ l : List (Event
     rw [this, filterMap_range_one e i n hi]
     rfl
 
+/-- no delivery in the list was cut short by a panicking observer -/
+def MarkerFree (l : List (Event α)) : Prop := ∀ e ∈ l, e.isObserverPanic = false
+
+theorem markerFree_append {l₁ l₂ : List (Event α)} :
+    MarkerFree (l₁ ++ l₂) ↔ MarkerFree l₁ ∧ MarkerFree l₂ := by
+  simp [MarkerFree, or_imp, forall_and]
+
+theorem markerFree_cons {e : Event α} {l : List (Event α)} :
+    MarkerFree (e :: l) ↔ e.isObserverPanic = false ∧ MarkerFree l := by
+  simp [MarkerFree]
+
+theorem receivedBy_append (i : Nat) (d₁ d₂ : List (Nat × Event α)) :
+    receivedBy i (d₁ ++ d₂) = receivedBy i d₁ ++ receivedBy i d₂ := by
+  simp [receivedBy]
+
+theorem receivedBy_range_map (e : Event α) (i m : Nat) :
+    receivedBy i ((List.range m).map (fun k => (k, e))) = if i < m then [e] else [] := by
+  simp only [receivedBy, List.filterMap_map]
+  have : ((fun p : Nat × Event α => if p.1 = i then some p.2 else none) ∘ fun k => (k, e)) =
+      fun k => if k = i then some e else none := rfl
+  rw [this]
+  split
+  · rename_i h; exact filterMap_range_one e i m h
+  · rename_i h; exact filterMap_range_none e i m (by omega)
+
+theorem reach_of_head (n : Nat) {l : List (Event α)} (h : ∀ e, l.head? = some e → e.isObserverPanic = false) :
+    reach n l = n := by
+  cases l with
+  | nil => rfl
+  | cons e l =>
+    have := h e rfl
+    cases e <;> simp_all [reach, Event.isObserverPanic]
+
+/-- what observer `i` receives of the first event of a list: the event, if it is one the
+annealer sends to observers and its delivery got as far as `i` -/
+theorem receivedBy_deliveries_cons (n i : Nat) (e : Event α) (rest : List (Event α)) :
+    receivedBy i (deliveries n (e :: rest)) =
+      (if e.observable = true ∧ i < reach n rest then [e] else []) ++ receivedBy i (deliveries n rest) := by
+  simp only [deliveries, receivedBy_append]
+  congr 1
+  by_cases he : e.observable = true
+  · simp only [he, if_true, receivedBy_range_map, true_and]
+  · simp [he, receivedBy]
+
+theorem receivedBy_deliveries_markerFree (n i : Nat) (hi : i < n) : ∀ l : List (Event α),
+    MarkerFree l → receivedBy i (deliveries n l) = l.filter Event.observable
+  | [], _ => rfl
+  | e :: l, h => by
+    have hl : MarkerFree l := (markerFree_cons.mp h).2
+    have hr : reach n l = n := reach_of_head n (fun e' he' => hl e' (List.mem_of_mem_head? he'))
+    rw [receivedBy_deliveries_cons, receivedBy_deliveries_markerFree n i hi l hl, hr]
+    by_cases he : e.observable = true <;> simp [he, hi]
+
+theorem deliveries_markerFree (n : Nat) : ∀ l : List (Event α), MarkerFree l →
+    deliveries n l = (l.filter Event.observable).flatMap (fun e => (List.range n).map (fun i => (i, e)))
+  | [], _ => rfl
+  | e :: l, h => by
+    have hl : MarkerFree l := (markerFree_cons.mp h).2
+    have hr : reach n l = n := reach_of_head n (fun e' he' => hl e' (List.mem_of_mem_head? he'))
+    simp only [deliveries, hr, deliveries_markerFree n l hl]
+    by_cases he : e.observable = true <;> simp [he]
+
+/-- the delivery of `e` stops in observer `j`: observers `0 … j` have `e` in what they received,
+the others do not; everything else reaches everybody -/
+theorem receivedBy_deliveries_panic (n i j : Nat) (hi : i < n) (e : Event α) (post : List (Event α))
+    (he : e.observable = true) (hpost : MarkerFree post) : ∀ pre : List (Event α), MarkerFree pre →
+    receivedBy i (deliveries n (pre ++ e :: .observerPanic j :: post)) =
+      pre.filter Event.observable ++ (if i ≤ j then [e] else []) ++ post.filter Event.observable
+  | [], _ => by
+    have hm : (Event.observerPanic j : Event α).observable = false := rfl
+    rw [List.nil_append, receivedBy_deliveries_cons, receivedBy_deliveries_cons,
+      receivedBy_deliveries_markerFree n i hi post hpost]
+    have hiff : i < min (j + 1) n ↔ i ≤ j := by omega
+    simp [he, hm, reach, hiff]
+  | x :: pre, h => by
+    have hpre : MarkerFree pre := (markerFree_cons.mp h).2
+    have hr : reach n (pre ++ e :: .observerPanic j :: post) = n := by
+      apply reach_of_head
+      intro e' he'
+      cases pre with
+      | nil =>
+        simp only [List.nil_append, List.head?_cons, Option.some.injEq] at he'
+        subst he'
+        cases e <;> simp_all [Event.observable, Event.isObserverPanic]
+      | cons y pre' =>
+        simp only [List.cons_append, List.head?_cons, Option.some.injEq] at he'
+        subst he'
+        exact hpre _ (List.mem_cons_self ..)
+    rw [List.cons_append, receivedBy_deliveries_cons, hr,
+      receivedBy_deliveries_panic n i j hi e post he hpost pre hpre]
+    by_cases hx : x.observable = true <;> simp [hx, hi]
+
 end observers
+
+section runshape
+variable {α : Type} [Mul α]
+
+/-- the panic site is not an observer's callback -/
+def NotNotify (p : Option PanicSite) : Prop := ∀ pt j, p ≠ some (.notify pt j)
+
+theorem observerAt_notNotify {p : Option PanicSite} (h : NotNotify p) (pt : NotifyPoint) :
+    observerAt p pt = none := by
+  rcases p with _ | s
+  · rfl
+  · cases s with
+    | notify pt' j => exact absurd rfl (h pt' j)
+    | _ => rfl
+
+theorem iterationPanic_markerFree (a : α) {p : Option PanicSite} (hp : NotNotify p) {i cur : Nat} {T : α}
+    {evs : List (Event α)} {T' : α} (h : iterationPanic a p i cur T = some (evs, T')) : MarkerFree evs := by
+  rcases p with _ | s
+  · simp [iterationPanic] at h
+  · cases s with
+    | notify pt' j => exact absurd rfl (hp pt' j)
+    | initialise => simp [iterationPanic] at h
+    | finishAttributes => simp [iterationPanic] at h
+    | tearDown => simp [iterationPanic] at h
+    | tryRandomChange k =>
+      simp only [iterationPanic] at h
+      split at h
+      · cases h; simp [MarkerFree, Event.isObserverPanic]
+      · cases h
+    | coolDown k =>
+      simp only [iterationPanic] at h
+      split at h
+      · cases h; simp [MarkerFree, Event.isObserverPanic]
+      · cases h
+    | coolDownAfter k =>
+      simp only [iterationPanic] at h
+      split at h
+      · cases h; simp [MarkerFree, Event.isObserverPanic]
+      · cases h
+
+theorem iterationEvents_markerFree (a : α) (k : Nat) (T : α) : MarkerFree (iterationEvents a k T) := by
+  simp [MarkerFree, iterationEvents, Event.isObserverPanic]
+
+theorem loop_markerFree (N : Nat) (a : α) {p : Option PanicSite} (hp : NotNotify p) :
+    ∀ (fuel i cur : Nat) (T : α), MarkerFree (loop N a p fuel i cur T).1
+  | 0, _, _, _ => by simp [loop, MarkerFree]
+  | fuel + 1, i, cur, T => by
+    simp only [loop]
+    split
+    · rename_i evs T' heq
+      exact iterationPanic_markerFree a hp heq
+    · split
+      · exact iterationEvents_markerFree a (cur + 1) T
+      · exact markerFree_append.mpr ⟨iterationEvents_markerFree a (cur + 1) T,
+          loop_markerFree N a hp fuel (i + 1) (cur + 1) (T * a)⟩
+
+omit [Mul α] in
+theorem finish_markerFree {p : Option PanicSite} (hp : NotNotify p) {pre : List (Event α)}
+    (hpre : MarkerFree pre) (cur : Nat) (T : α) : MarkerFree (finish p pre cur T).events := by
+  unfold finish
+  split
+  · exact markerFree_append.mpr ⟨hpre, by simp [MarkerFree, Event.isObserverPanic]⟩
+  · rw [observerAt_notNotify hp]
+    exact markerFree_append.mpr ⟨hpre, by simp [MarkerFree, Event.isObserverPanic]⟩
+
+omit [Mul α] in
+theorem conclude_markerFree {p : Option PanicSite} (hp : NotNotify p) (T0 : α)
+    (r : List (Event α) × LoopExit α) (hr : MarkerFree r.1) : MarkerFree (conclude p T0 r).events := by
+  have h2 : MarkerFree ([.explorerInitialise, .startedAnnealing T0] : List (Event α)) := by
+    simp [MarkerFree, Event.isObserverPanic]
+  rcases r with ⟨evs, _ | _ | _⟩
+  · exact finish_markerFree hp (markerFree_append.mpr ⟨h2, hr⟩) _ _
+  · exact markerFree_append.mpr ⟨markerFree_append.mpr ⟨h2, hr⟩, by simp [MarkerFree, Event.isObserverPanic]⟩
+  · exact markerFree_append.mpr ⟨h2, hr⟩
+
+/-- unless the injected panic is in an observer, no delivery of a run is cut short -/
+theorem anneal_markerFree (N cur0 : Nat) (T0 a : α) {p : Option PanicSite} (hp : NotNotify p) :
+    MarkerFree (anneal N cur0 T0 a p).events := by
+  have h2 : MarkerFree ([.explorerInitialise, .startedAnnealing T0] : List (Event α)) := by
+    simp [MarkerFree, Event.isObserverPanic]
+  by_cases hinit : p = some .initialise
+  · subst hinit; simp [anneal, MarkerFree, Event.isObserverPanic]
+  · rw [anneal_eq N cur0 T0 a hinit (observerAt_notNotify hp _)]
+    split
+    · exact finish_markerFree hp h2 _ _
+    · exact conclude_markerFree hp T0 _ (loop_markerFree N a hp _ _ _ _)
+
+/-- shape of "the delivery of the last event sent stopped in observer `j`" -/
+def CutAt (j : Nat) (evs : List (Event α)) : Prop :=
+  ∃ pre e, evs = pre ++ [e, .observerPanic j] ∧ MarkerFree pre ∧ e.observable = true
+
+theorem iterationPanic_notify (a : α) {pt : NotifyPoint} {j i cur : Nat} {T : α}
+    {evs : List (Event α)} {T' : α}
+    (h : iterationPanic a (some (.notify pt j)) i cur T = some (evs, T')) : CutAt j evs := by
+  cases pt with
+  | startedAnnealing => simp [iterationPanic] at h
+  | finishedAnnealing => simp [iterationPanic] at h
+  | startedIteration k =>
+    simp only [iterationPanic] at h
+    split at h
+    · cases h
+      exact ⟨[], _, rfl, by simp [MarkerFree], rfl⟩
+    · cases h
+  | finishedIteration k =>
+    simp only [iterationPanic] at h
+    split at h
+    · cases h
+      exact ⟨[.startedIteration cur T, .tryRandomChange, .coolDown], _, rfl,
+        by simp [MarkerFree, Event.isObserverPanic], rfl⟩
+    · cases h
+
+theorem loop_notify (N : Nat) (a : α) (pt : NotifyPoint) (j : Nat) :
+    ∀ (fuel i cur : Nat) (T : α),
+      (MarkerFree (loop N a (some (.notify pt j)) fuel i cur T).1 ∧
+        ∀ c T', (loop N a (some (.notify pt j)) fuel i cur T).2 ≠ .panicked c T') ∨
+      ((∃ c T', (loop N a (some (.notify pt j)) fuel i cur T).2 = .panicked c T') ∧
+        CutAt j (loop N a (some (.notify pt j)) fuel i cur T).1)
+  | 0, _, _, _ => by simp [loop, MarkerFree]
+  | fuel + 1, i, cur, T => by
+    simp only [loop]
+    split
+    · rename_i evs T' heq
+      exact Or.inr ⟨⟨_, _, rfl⟩, iterationPanic_notify a heq⟩
+    · split
+      · exact Or.inl ⟨iterationEvents_markerFree a (cur + 1) T, by simp⟩
+      · rcases loop_notify N a pt j fuel (i + 1) (cur + 1) (T * a) with ⟨h1, h2⟩ | ⟨h1, pre, e, h2, h3, h4⟩
+        · exact Or.inl ⟨markerFree_append.mpr ⟨iterationEvents_markerFree a (cur + 1) T, h1⟩, h2⟩
+        · refine Or.inr ⟨h1, iterationEvents a (cur + 1) T ++ pre, e, ?_, ?_, h4⟩
+          · dsimp only
+            rw [h2]; simp [iterationEvents]
+          · exact markerFree_append.mpr ⟨iterationEvents_markerFree a (cur + 1) T, h3⟩
+
+omit [Mul α] in
+theorem finish_notify (pt : NotifyPoint) (j : Nat) {pre : List (Event α)} (hpre : MarkerFree pre)
+    (cur : Nat) (T : α) :
+    ((finish (some (.notify pt j)) pre cur T).outcome = .returned ∧
+      MarkerFree (finish (some (.notify pt j)) pre cur T).events) ∨
+    ((finish (some (.notify pt j)) pre cur T).outcome = .repanicked ∧
+      ∃ pre' e, (finish (some (.notify pt j)) pre cur T).events = pre' ++ [e, .observerPanic j, .explorerTearDown] ∧
+        MarkerFree pre' ∧ e.observable = true) := by
+  by_cases hpt : pt = .finishedAnnealing
+  · subst hpt
+    refine Or.inr ?_
+    simp only [finish, observerAt, if_true]
+    exact ⟨rfl, pre, _, rfl, hpre, rfl⟩
+  · refine Or.inl ?_
+    simp only [finish, observerAt, if_false, hpt]
+    exact ⟨rfl, markerFree_append.mpr ⟨hpre, by simp [MarkerFree, Event.isObserverPanic]⟩⟩
+
+/-- a run whose injected panic is in observer `j` at notify point `pt` (any budget, any entry
+counter): either the point is never reached and the run is an undisturbed one, or the run is
+re-panicked and its events end with the event of that point, the marker, and the teardown -/
+theorem anneal_notify (N cur0 : Nat) (T0 a : α) (pt : NotifyPoint) (j : Nat) :
+    ((anneal N cur0 T0 a (some (.notify pt j))).outcome = .returned ∧
+      MarkerFree (anneal N cur0 T0 a (some (.notify pt j))).events) ∨
+    ((anneal N cur0 T0 a (some (.notify pt j))).outcome = .repanicked ∧
+      ∃ pre e, (anneal N cur0 T0 a (some (.notify pt j))).events =
+          pre ++ [e, .observerPanic j, .explorerTearDown] ∧
+        MarkerFree pre ∧ e.observable = true) := by
+  have h2 : MarkerFree ([.explorerInitialise, .startedAnnealing T0] : List (Event α)) := by
+    simp [MarkerFree, Event.isObserverPanic]
+  have hinit : (some (.notify pt j) : Option PanicSite) ≠ some .initialise := by simp
+  by_cases hpt : pt = .startedAnnealing
+  · subst hpt
+    refine Or.inr ?_
+    rw [anneal_eq_start_panic N cur0 T0 a (j := j) hinit (by simp [observerAt])]
+    exact ⟨rfl, [.explorerInitialise], _, rfl, by simp [MarkerFree, Event.isObserverPanic], rfl⟩
+  · rw [anneal_eq N cur0 T0 a hinit (by simp [observerAt, hpt])]
+    split
+    · exact finish_notify pt j h2 _ _
+    · have hl := loop_notify N a pt j (N - cur0 + 1) 0 cur0 T0
+      have hf := loop_not_outOfFuel N a (some (.notify pt j)) (N - cur0 + 1) 0 cur0 T0 (by omega) (by omega)
+      rcases hloop : loop N a (some (.notify pt j)) (N - cur0 + 1) 0 cur0 T0 with ⟨evs, ⟨cur, T⟩ | ⟨cur, T⟩ | ⟨cur, T⟩⟩
+      · rw [hloop] at hl
+        rcases hl with ⟨h1, -⟩ | ⟨⟨c, T', h1⟩, -⟩
+        · exact finish_notify pt j (markerFree_append.mpr ⟨h2, h1⟩) _ _
+        · cases h1
+      · rw [hloop] at hl
+        rcases hl with ⟨-, h1⟩ | ⟨-, pre, e, h1, h3, h4⟩
+        · exact absurd rfl (h1 cur T)
+        · refine Or.inr ⟨rfl, [.explorerInitialise, .startedAnnealing T0] ++ pre, e, ?_,
+            markerFree_append.mpr ⟨h2, h3⟩, h4⟩
+          dsimp only at h1
+          simp [conclude, h1]
+      · rw [hloop] at hf
+        exact absurd rfl (hf cur T)
+
+theorem iterationPanic_forms (a : α) {p : Option PanicSite} {i cur : Nat} {T : α}
+    {evs : List (Event α)} {T' : α} (h : iterationPanic a p i cur T = some (evs, T')) :
+    ∃ j, evs = [.startedIteration cur T, .observerPanic j] ∨
+      evs = [.startedIteration cur T, .tryRandomChange] ∨
+      evs = [.startedIteration cur T, .tryRandomChange, .coolDown] ∨
+      evs = [.startedIteration cur T, .tryRandomChange, .coolDown, .finishedIteration cur (T * a),
+        .observerPanic j] := by
+  rcases p with _ | s
+  · simp [iterationPanic] at h
+  · cases s with
+    | initialise => simp [iterationPanic] at h
+    | finishAttributes => simp [iterationPanic] at h
+    | tearDown => simp [iterationPanic] at h
+    | tryRandomChange k =>
+      simp only [iterationPanic] at h
+      split at h
+      · cases h; exact ⟨0, Or.inr (Or.inl rfl)⟩
+      · cases h
+    | coolDown k =>
+      simp only [iterationPanic] at h
+      split at h
+      · cases h; exact ⟨0, Or.inr (Or.inr (Or.inl rfl))⟩
+      · cases h
+    | coolDownAfter k =>
+      simp only [iterationPanic] at h
+      split at h
+      · cases h; exact ⟨0, Or.inr (Or.inr (Or.inl rfl))⟩
+      · cases h
+    | notify pt j =>
+      cases pt with
+      | startedAnnealing => simp [iterationPanic] at h
+      | finishedAnnealing => simp [iterationPanic] at h
+      | startedIteration k =>
+        simp only [iterationPanic] at h
+        split at h
+        · cases h; exact ⟨j, Or.inl rfl⟩
+        · cases h
+      | finishedIteration k =>
+        simp only [iterationPanic] at h
+        split at h
+        · cases h; exact ⟨j, Or.inr (Or.inr (Or.inr rfl))⟩
+        · cases h
+
+theorem loop_no_teardown (N : Nat) (a : α) (p : Option PanicSite) :
+    ∀ (fuel i cur : Nat) (T : α), (loop N a p fuel i cur T).1.countP Event.isTearDown = 0
+  | 0, _, _, _ => rfl
+  | fuel + 1, i, cur, T => by
+    simp only [loop]
+    split
+    · rename_i evs T' heq
+      obtain ⟨j, h | h | h | h⟩ := iterationPanic_forms a heq <;> subst h <;> rfl
+    · split
+      · rfl
+      · dsimp only
+        rw [List.countP_append, loop_no_teardown N a p fuel (i + 1) (cur + 1) (T * a)]
+        rfl
+
+theorem loop_none_not_panicked (N : Nat) (a : α) :
+    ∀ (fuel i cur : Nat) (T : α) (c : Nat) (T' : α), (loop N a none fuel i cur T).2 ≠ .panicked c T'
+  | 0, _, _, _, _, _ => by simp [loop]
+  | fuel + 1, i, cur, T, c, T' => by
+    have hnone : iterationPanic a none (i + 1) (cur + 1) T = none := rfl
+    simp only [loop, hnone]
+    split
+    · simp
+    · exact loop_none_not_panicked N a fuel (i + 1) (cur + 1) (T * a) c T'
+
+omit [Mul α] in
+theorem finish_teardown (p : Option PanicSite) {pre : List (Event α)}
+    (hpre : pre.countP Event.isTearDown = 0) (cur : Nat) (T : α) :
+    (finish p pre cur T).events.getLast? = some .explorerTearDown ∧
+    (finish p pre cur T).events.countP Event.isTearDown = 1 := by
+  unfold finish
+  split
+  · simp [List.countP_append, hpre, Event.isTearDown]
+  · split <;> simp [List.countP_append, hpre, Event.isTearDown]
+
+/-- in every run in which the explorer's `Initialise()` returned the explorer is torn down exactly
+once, and that is the last thing that happens -/
+theorem anneal_teardown (N cur0 : Nat) (T0 a : α) (p : Option PanicSite) (hinit : p ≠ some .initialise) :
+    (anneal N cur0 T0 a p).events.getLast? = some .explorerTearDown ∧
+    (anneal N cur0 T0 a p).events.countP Event.isTearDown = 1 := by
+  rcases hS : observerAt p .startedAnnealing with _ | j
+  · rw [anneal_eq N cur0 T0 a hinit hS]
+    split
+    · exact finish_teardown p rfl _ _
+    · have hf := loop_not_outOfFuel N a p (N - cur0 + 1) 0 cur0 T0 (by omega) (by omega)
+      have hc := loop_no_teardown N a p (N - cur0 + 1) 0 cur0 T0
+      rcases hloop : loop N a p (N - cur0 + 1) 0 cur0 T0 with ⟨evs, ⟨cur, T⟩ | ⟨cur, T⟩ | ⟨cur, T⟩⟩
+      · rw [hloop] at hc
+        exact finish_teardown p (by simpa [List.countP_append, Event.isTearDown] using hc) _ _
+      · rw [hloop] at hc
+        dsimp only at hc
+        refine ⟨?_, by simp [conclude, List.countP_append, hc, Event.isTearDown]⟩
+        simp only [conclude]
+        rw [List.getLast?_append]
+        simp
+      · rw [hloop] at hf; exact absurd rfl (hf cur T)
+  · rw [anneal_eq_start_panic N cur0 T0 a hinit hS]
+    simp [Event.isTearDown]
+
+end runshape
+
+section prefixes
+variable {α : Type} [Mul α]
+
+theorem filter_observable_iterationEvents (a : α) (k : Nat) (T : α) :
+    (iterationEvents a k T).filter Event.observable = [.startedIteration k T, .finishedIteration k (T * a)] := by
+  simp [iterationEvents, List.filter_cons, Event.observable]
+
+/-- the events a panicking iteration sends to observers are the first ones the complete
+iteration would have sent -/
+theorem iterationPanic_prefix (a : α) {p : Option PanicSite} {i cur : Nat} {T : α}
+    {evs : List (Event α)} {T' : α} (h : iterationPanic a p i cur T = some (evs, T')) :
+    evs.filter Event.observable <+: (iterationEvents a cur T).filter Event.observable := by
+  rw [filter_observable_iterationEvents]
+  rcases p with _ | s
+  · simp [iterationPanic] at h
+  · cases s with
+    | initialise => simp [iterationPanic] at h
+    | finishAttributes => simp [iterationPanic] at h
+    | tearDown => simp [iterationPanic] at h
+    | tryRandomChange k =>
+      simp only [iterationPanic] at h
+      split at h
+      · cases h; exact ⟨[.finishedIteration cur (T * a)], by simp [List.filter_cons, Event.observable]⟩
+      · cases h
+    | coolDown k =>
+      simp only [iterationPanic] at h
+      split at h
+      · cases h; exact ⟨[.finishedIteration cur (T * a)], by simp [List.filter_cons, Event.observable]⟩
+      · cases h
+    | coolDownAfter k =>
+      simp only [iterationPanic] at h
+      split at h
+      · cases h; exact ⟨[.finishedIteration cur (T * a)], by simp [List.filter_cons, Event.observable]⟩
+      · cases h
+    | notify pt j =>
+      cases pt with
+      | startedAnnealing => simp [iterationPanic] at h
+      | finishedAnnealing => simp [iterationPanic] at h
+      | startedIteration k =>
+        simp only [iterationPanic] at h
+        split at h
+        · cases h; exact ⟨[.finishedIteration cur (T * a)], by simp [List.filter_cons, Event.observable]⟩
+        · cases h
+      | finishedIteration k =>
+        simp only [iterationPanic] at h
+        split at h
+        · cases h; exact ⟨[], by simp [List.filter_cons, Event.observable]⟩
+        · cases h
+
+theorem loop_prefix (N : Nat) (a : α) (p : Option PanicSite) :
+    ∀ (fuel i cur : Nat) (T : α),
+      loop N a p fuel i cur T = loop N a none fuel i cur T ∨
+      ((∃ c T', (loop N a p fuel i cur T).2 = .panicked c T') ∧
+        (loop N a p fuel i cur T).1.filter Event.observable <+:
+          (loop N a none fuel i cur T).1.filter Event.observable)
+  | 0, _, _, _ => Or.inl rfl
+  | fuel + 1, i, cur, T => by
+    have hnone : iterationPanic a none (i + 1) (cur + 1) T = none := rfl
+    simp only [loop, hnone]
+    split
+    · rename_i evs T' heq
+      refine Or.inr ⟨⟨_, _, rfl⟩, ?_⟩
+      have hp := iterationPanic_prefix a heq
+      simp only [iterationEvents] at hp
+      split
+      · exact hp
+      · dsimp only
+        rw [List.filter_append]
+        exact hp.trans (List.prefix_append _ _)
+    · split
+      · exact Or.inl rfl
+      · rcases loop_prefix N a p fuel (i + 1) (cur + 1) (T * a) with h | ⟨h1, h2⟩
+        · exact Or.inl (by rw [h])
+        · refine Or.inr ⟨h1, ?_⟩
+          dsimp only
+          rw [List.filter_append, List.filter_append]
+          exact (List.prefix_append_right_inj _).mpr h2
+
+omit [Mul α] in
+theorem finish_prefix (p : Option PanicSite) (pre : List (Event α)) (cur : Nat) (T : α) :
+    (finish p pre cur T).events.filter Event.observable <+:
+      (finish none pre cur T).events.filter Event.observable := by
+  have hn : (finish none pre cur T).events = pre ++ [.finishedAnnealing cur T, .explorerTearDown] := by
+    simp [finish, observerAt]
+  rw [hn]
+  unfold finish
+  split
+  · simp only [List.filter_append]
+    exact (List.prefix_append_right_inj _).mpr (by simp [List.filter_cons, Event.observable])
+  · split
+    · simp only [List.filter_append]
+      exact (List.prefix_append_right_inj _).mpr
+        (by simp [List.filter_cons, Event.observable])
+    · exact List.prefix_refl _
+
+omit [Mul α] in
+theorem conclude_prefix (p : Option PanicSite) (T0 : α) (r r0 : List (Event α) × LoopExit α)
+    (h : r = r0 ∨ ((∃ c T', r.2 = .panicked c T') ∧
+      r.1.filter Event.observable <+: r0.1.filter Event.observable)) :
+    (conclude p T0 r).events.filter Event.observable <+:
+      (conclude none T0 r0).events.filter Event.observable := by
+  rcases h with rfl | ⟨⟨c, T', h1⟩, h2⟩
+  · rcases r with ⟨evs, _ | _ | _⟩
+    · exact finish_prefix p _ _ _
+    · exact List.prefix_refl _
+    · exact List.prefix_refl _
+  · rcases r with ⟨evs, ex⟩
+    dsimp only at h1 h2
+    subst h1
+    have hstep : ([.explorerInitialise, .startedAnnealing T0] ++ evs ++ [.explorerTearDown] : List (Event α)).filter Event.observable <+:
+        ([.explorerInitialise, .startedAnnealing T0] ++ r0.1 : List (Event α)).filter Event.observable := by
+      have : ([.explorerTearDown] : List (Event α)).filter Event.observable = [] := rfl
+      rw [List.filter_append, List.filter_append, List.filter_append, this, List.append_nil]
+      exact (List.prefix_append_right_inj _).mpr h2
+    refine List.IsPrefix.trans hstep ?_
+    rcases r0 with ⟨evs0, _ | _ | _⟩
+    · simp only [conclude, finish, observerAt, reduceCtorEq, if_false]
+      rw [List.filter_append (l₂ := [_, _])]
+      exact List.prefix_append _ _
+    · simp only [conclude]
+      rw [List.filter_append (l₂ := [_])]
+      exact List.prefix_append _ _
+    · exact List.prefix_refl _
+
+/-- what a run with an injected panic sends to the observers is an initial part of what the
+undisturbed run with the same budget, entry counter, temperature and cooling factor sends -/
+theorem anneal_prefix (N cur0 : Nat) (T0 a : α) (p : Option PanicSite) :
+    (anneal N cur0 T0 a p).events.filter Event.observable <+:
+      (anneal N cur0 T0 a none).events.filter Event.observable := by
+  have hn := anneal_eq N cur0 T0 a (p := none) (by simp) rfl
+  by_cases hinit : p = some .initialise
+  · subst hinit
+    simp [anneal, Event.observable]
+  · rcases hS : observerAt p .startedAnnealing with _ | j
+    · rw [anneal_eq N cur0 T0 a hinit hS, hn]
+      split
+      · exact finish_prefix p _ _ _
+      · exact conclude_prefix p T0 _ _ (loop_prefix N a p _ _ _ _)
+    · rw [anneal_eq_start_panic N cur0 T0 a hinit hS, hn]
+      have hl : ([.explorerInitialise, .startedAnnealing T0, .observerPanic j, .explorerTearDown] : List (Event α)).filter Event.observable =
+          [.startedAnnealing T0] := rfl
+      dsimp only
+      rw [hl]
+      split
+      · exact ⟨[.finishedAnnealing cur0 T0], by simp [finish, observerAt, List.filter_cons, Event.observable]⟩
+      · rcases loop N a none (N - cur0 + 1) 0 cur0 T0 with ⟨evs0, _ | _ | _⟩ <;>
+          simp [conclude, finish, observerAt, List.filter_cons, Event.observable]
+
+omit [Mul α] in
+/-- only the events sent to observers carry a temperature -/
+theorem filterMap_temperature_filter (l : List (Event α)) :
+    l.filterMap Event.temperature? = (l.filter Event.observable).filterMap Event.temperature? := by
+  induction l with
+  | nil => rfl
+  | cons e l ih =>
+    cases e <;> simp [List.filter_cons, List.filterMap_cons, Event.temperature?, Event.observable, ih]
+
+end prefixes
 
 end Crem.Anneal
